@@ -217,8 +217,7 @@ func (c *Context) Tell(recipient vivid.ActorRef, message vivid.Message) {
 
 func (c *Context) tell(system bool, recipient vivid.ActorRef, message vivid.Message) {
 	envelop := mailbox.NewEnvelop(system, c.ref, recipient, message)
-	ref, _ := recipient.(*Ref)
-	receiverMailbox := c.system.findMailbox(ref)
+	receiverMailbox := c.system.findMailbox(asRef(recipient))
 	receiverMailbox.Enqueue(envelop)
 }
 
@@ -244,7 +243,7 @@ func (c *Context) ask(system bool, recipient vivid.ActorRef, message vivid.Messa
 	}
 
 	envelop := mailbox.NewEnvelop(system, agentRef.ref, recipient, message)
-	receiverMailbox := c.system.findMailbox(recipient.(*Ref))
+	receiverMailbox := c.system.findMailbox(asRef(recipient))
 	receiverMailbox.Enqueue(envelop)
 
 	return futureIns
